@@ -66,6 +66,10 @@ KF7_missing(all, got, u) ==
 (*          (ku, kw the dictionary key, h the hops, tup: it was a tuple)    *)
 (***************************************************************************)
 PathsOf(q) == { q.paths[i].h : i \in DOMAIN q.paths }
+\* The paths that may not be missed hop at snapshot ids ("interaction chains of length 1 within each network
+\* snapshot").  On a removal-enabled graph every instant of presence is a snapshot id (C04) and this is all of P;
+\* on an accumulative graph interactions persist between the ids as well and the enumeration ranges over the ids.
+AtIds(P, ids) == { x \in P : x[3] \in ToSet(ids) }
 
 TRP_Table(O, q) ==
   LET P   == Triples(O)
@@ -82,7 +86,7 @@ TRP_Table(O, q) ==
   THEN {}     \* C12 / C13 quantify over windows inside the snapshot range; C15 states ValueError for temporal_dag only
   ELSE IF q.res # "ok" THEN { <<"C12_x_no_exception", "fail">>, <<"C13_x_no_exception", "fail">> }
   ELSE
-  LET all == AllPaths(P, ids, q.u, q.v, s, e)
+  LET all == AllPaths(AtIds(P, ids), ids, q.u, q.v, s, e)
       got == PathsOf(q)
   IN
   { <<"C12_a_every_path_is_genuine", St(\A h \in got : ValidPath(P, ids, h, q.u, q.v, s, e))>>,
@@ -99,12 +103,16 @@ TRP_Table(O, q) ==
 \* keyed (u, w); q.per[u] = the logged time_respecting_paths(G,u,None,s,e)
 ATRP_Table(O, q) ==
   LET P == Triples(O)  ids == O.ids IN
-  IF q.res # "ok" \/ ids = <<>> THEN { <<"C13_d_all_paths_no_exception", St(ids = <<>> \/ q.res = "ok")>> }
+  IF ids = <<>> THEN {}
   ELSE
   LET s  == EffStart(ids, q.s)
       e  == EffEnd(ids, q.e)
-      us == IF q.m = NoT THEN NodesOf(O) ELSE { n \in NodesOf(O) : NodeAt(P, n, q.m) }
-      expected == UNION { IF NodeAt(P, u, s) THEN AllFrom(P, ids, u, s, e) ELSE {} : u \in us }
+  IN
+  IF ~ValidWindow(ids, s, e) THEN {}     \* C13 quantifies over windows inside the snapshot range
+  ELSE IF q.res # "ok" THEN { <<"C13_d_all_paths_no_exception", "fail">> }
+  ELSE
+  LET us == IF q.m = NoT THEN NodesOf(O) ELSE { n \in NodesOf(O) : NodeAt(P, n, q.m) }
+      expected == UNION { IF NodeAt(P, u, s) THEN AllFrom(AtIds(P, ids), ids, u, s, e) ELSE {} : u \in us }
   IN
   { <<"C13_d_all_paths_union",
       StKF(/\ PathsOf(q) = expected
